@@ -151,7 +151,17 @@ STMT_CORES.update({
     "compound_sub_on_blob_field": ("pb := Bg { f: __lit1 }\npb.f -= pb.f", "Bg :: blob {\n    f: *,\n}\n", _notnum),
     "compound_add_between_aliases": ("ce := __lit1\ncf := ce\nce += cf", "", lambda S, I: z3.Not(z3.Or(I("lit1", "int"), I("lit1", "float"), I("lit1", "str")))),
 })
-GENERIC_LITS = {"compound_sub_between_aliases": ["int", "float", "str", "bool"], "compound_mul_after_comparison": ["int", "str", "bool"], "compound_sub_on_blob_field": ["int", "str", "bool"], "compound_add_between_aliases": ["int", "str", "bool"],
+HOF = "ap :: fn f: fn *A -> *B, x: *A -> *B do\n    ret f(x)\nend\ninc1 :: fn n: int -> int do\n    ret n + 1\nend\ntos :: fn n: int -> str do\n    ret \"s\"\nend\npair :: fn a: *A, b: *B -> (*B, *A) do\n    ret (b, a)\nend\n"
+STMT_CORES.update({
+    # type variables of an annotated generic function: the result type is tied to the argument types through them
+    "generic_result_variable_bound_through_a_function_parameter": ("ar: Ty__1 = ap(inc1, 1)", HOF, lambda S, I: z3.Not(I("ty1", "int"))),
+    "generic_result_variable_bound_to_str_through_a_function_parameter": ("at: Ty__1 = ap(tos, 1)", HOF, lambda S, I: z3.Not(I("ty1", "str"))),
+    "generic_argument_variable_shared_with_a_function_parameter": ("ap(inc1, __lit1)", HOF, lambda S, I: z3.Not(I("lit1", "int"))),
+    "generic_result_variables_swapped": ("pq: (Ty__1, Ty__2) = pair(1, \"s\")", HOF, lambda S, I: z3.Not(z3.And(I("ty1", "str"), I("ty2", "int")))),
+    "generic_result_variable_used_as_operand": ("au :: ap(tos, 1) + __lit1", HOF, lambda S, I: z3.Not(I("lit1", "str"))),
+})
+GENERIC_LITS = {"generic_argument_variable_shared_with_a_function_parameter": ["int", "str", "bool"], "generic_result_variable_used_as_operand": ["int", "str", "float"],
+                "compound_sub_between_aliases": ["int", "float", "str", "bool"], "compound_mul_after_comparison": ["int", "str", "bool"], "compound_sub_on_blob_field": ["int", "str", "bool"], "compound_add_between_aliases": ["int", "str", "bool"],
                 "generic_tuple_local_not_returned": ["int", "float", "str", "bool"], "generic_inner_closure_and_outer_parameter": ["int", "str", "bool"], "operand_through_self": ["int", "str", "float"],
                 "void_inside_tuple_literal": ["int", "str", "void"], "void_inside_list_literal": ["int", "str", "void"], "generic_tuple_result_unused_call": ["int", "float", "str"], "generic_tuple_result_in_tuple_literal": ["int", "float", "str"], "generic_tuple_result_trailing_in_closure": ["int", "str"],
                 "generic_tuple_negation_unused_call": ["int", "float", "str", "bool"], "generic_tuple_negation_stored": ["int", "float", "str", "bool"], "generic_binop_args": ["int", "str", "bool", "float"], "generic_binop_via_variables": ["int", "str", "bool"], "tuple_elementwise": ["tuple", "tuple_str", "int"]}
@@ -171,7 +181,7 @@ CORES["binop_nested"] = (CORES["binop_nested"][0], "", spec_binop_nested, {})
 CORES["void_in_variable"] = (CORES["void_in_variable"][0], "", spec_void_var, {})
 
 # cores whose mismatch table is written for the literal kinds listed in GENERIC_LITS only (tuples and lists have element-wise rules of their own): same kinds in both tiers
-SPEC_KINDS_FIXED = {"generic_tuple_result_unused_call", "generic_tuple_result_in_tuple_literal", "generic_tuple_result_trailing_in_closure", "generic_tuple_negation_unused_call", "generic_tuple_negation_stored",
+SPEC_KINDS_FIXED = {"generic_argument_variable_shared_with_a_function_parameter", "generic_result_variable_used_as_operand", "generic_tuple_result_unused_call", "generic_tuple_result_in_tuple_literal", "generic_tuple_result_trailing_in_closure", "generic_tuple_negation_unused_call", "generic_tuple_negation_stored",
                     "compound_sub_between_aliases", "compound_mul_after_comparison", "compound_sub_on_blob_field", "compound_add_between_aliases", "generic_tuple_local_not_returned",
                     "generic_inner_closure_and_outer_parameter", "operand_through_self", "void_inside_tuple_literal", "void_inside_list_literal"}
 _CTX = {}
